@@ -835,7 +835,7 @@ func (w *World) atAsserts(fr *Frame, st *State, kind string, ins ssa.Instruction
 		return
 	}
 	for _, as := range fr.contract.Asserts {
-		if as.Kind == kind && as.Ord == ord {
+		if as.Kind == kind && (as.Ord == ord || as.Ord == 0) {
 			w.firedAsserts[as] = true
 			env := w.contractEnv(fr, st, fr.entry)
 			for k, v := range vars {
@@ -845,7 +845,12 @@ func (w *World) atAsserts(fr *Frame, st *State, kind string, ins ssa.Instruction
 			if len(props) == 0 {
 				props = fr.contract.Props
 			}
-			o := w.oblige("assert", fmt.Sprintf("at.%s%d.%s", kind, ord, as.Clause.Label), st.cond, w.skolemGoal(env, as.Clause.Expr), as.Clause.Star, props)
+			name := fmt.Sprintf("at.%s%d.%s", kind, ord, as.Clause.Label)
+			if as.Ord == 0 {
+				w.callOrd["at*:"+kind+as.Clause.Label]++
+				name = fmt.Sprintf("at.%s.%s.%d", kind, as.Clause.Label, w.callOrd["at*:"+kind+as.Clause.Label])
+			}
+			o := w.oblige("assert", name, st.cond, w.skolemGoal(env, as.Clause.Expr), as.Clause.Star, props)
 			o.Pos = as.Clause.Line
 		}
 	}
